@@ -13,7 +13,9 @@ VARIANTS = ["4d:America/Chicago:0:23:base", "10d:Europe/London:7:15:rep", "40d:A
             "8d@2020-10-25:Europe/London:0:23:base",
             # one long contiguous outage of a column elsewhere in the frame (out<column><days>): longer than the autocorrelation fill
             # can bridge, so that the later fill stages are reached; judged through the counters over the rest of the frame
-            "40d:America/Chicago:0:23:outT6", "60d:Europe/London:0:23:outO16", "400d:America/Chicago:0:23:outT21", "30d:Asia/Kolkata:0:23:outG5"]
+            "40d:America/Chicago:0:23:outT6", "60d:Europe/London:0:23:outO16", "400d:America/Chicago:0:23:outT21", "30d:Asia/Kolkata:0:23:outG5",
+            # the same instants prepared just before as a meter of a twin zone (same offset as the zone's standard time, no clock changes)
+            "10d@2020-03-24:Europe/London:0:23:rep+twin", "10d@2020-10-28:America/Chicago:0:23:base+twin"]
 _st = {}
 
 
@@ -44,6 +46,7 @@ def _frame(days, tz, h0, h1, ghi, seed, start_date=None):
 def realise(cin, variant):
     em = _st["em"]
     d, tz, h0, h1, mode = variant.split(":")
+    mode, _, twin = mode.partition("+")       # "+twin": the same instants are first prepared as a meter of a zone without clock changes, in this process
     d, _, start_date = d.partition("@")
     days, h0, h1 = int(d[:-1]), int(h0), int(h1)
     fr = _frame(days, tz, h0, h1, cin["ghi"], days, start_date or None)
@@ -102,6 +105,11 @@ def realise(cin, variant):
     out = {"res": "ok", "index_ok": True, "cells": [], "pad": {"badValue": 0, "badFlag": 0, "missing": 0}}
     try:
         C = em.HourlyBaselineData if mode in ("base", "empty-observed") and mode != "empty-observed" else em.HourlyReportingData
+        if twin:
+            try:
+                C(given.tz_convert({"Europe/London": "UTC", "America/Chicago": "America/Regina"}[tz]), is_electricity_data=cin["electric"])
+            except Exception:
+                pass
         obj = C(given, is_electricity_data=cin["electric"])
         res = obj.df
     except Exception as ex:
